@@ -26,6 +26,7 @@ RULE = (
 def gen_case(rng, tier):
     prof = B.default_profile(rng)
     prof["w_op"] = rng.choice([0, 0, 1])
+    prof["views"] = rng.random() < 0.3  # dependencies through subviews of one allocation
     ast = B.BufGen(rng, prof).program()
     envs = [B.gen_env(rng, zero_trips=prof["zero_trips"]) for _ in range(K_ENVS[tier])]
     envs[0]["stall"] = False
@@ -118,7 +119,7 @@ def shrink(case):
     if case["variant"] == "B":
         yield dict(case, variant="A")
     for nb in B.shrink_body(case["ast"]["body"]):
-        yield dict(case, ast={"body": nb})
+        yield dict(case, ast=dict(case["ast"], body=nb))
 
 
 def sample_of(case):
